@@ -13,6 +13,13 @@ def callsErrs : T → Option (T × T)
 member of the family) | reject (whole document refused before execution: no data, no resolver) -/
 def handle (tb : Tables) (c impl : T) : String :=
   match c with
+  | .node "c10r" [_, refuse] =>
+    -- a reflection-bound method and a required argument left out (fixed table); obs: (obs methodCalled hasError).
+    -- The model is the property: refused ⇒ not called and an error; otherwise called without error.
+    (match refuse.asBool with
+     | some true => if impl == T.node "obs" [T.ofBool false, T.ofBool true] then "ok" else "mismatch spec-bad (obs false true)"
+     | some false => if impl == T.node "obs" [T.ofBool true, T.ofBool false] then "ok" else "mismatch spec-bad (obs true false)"
+     | none => "bad-op")
   | .node "c10" [.atom kind, w] =>
     match decCase w with
     | none => "bad-op"
